@@ -80,31 +80,39 @@ func (r *Repository) GetEntriesInTree(treeID Hash) ([]TreeEntry, error) {
 	// of being on Ubuntu 22.04. 22.04 is still widely used in WSL2 environments.
 	// So, we're removing --format and parsing the output differently to handle
 	// the extra information for each entry we don't need.
-	stdOut, err := r.executor("ls-tree", treeID.String()).executeString()
+	lines, err := r.executor("ls-tree", "-z", treeID.String()).executeNULSeparated()
 	if err != nil {
 		return nil, fmt.Errorf("unable to enumerate items in tree '%s': %w", treeID.String(), err)
 	}
 
-	if stdOut == "" {
+	if len(lines) == 0 {
 		return nil, nil // alternatively, just check if treeID is empty tree?
 	}
 
-	lines := strings.Split(stdOut, "\n")
 	entries := make([]TreeEntry, 0, len(lines))
 	for _, line := range lines {
 		// Without --format, the output is in the following format:
 		// <mode> SP <type> SP <object> TAB <file>
 		// From: https://git-scm.com/docs/git-ls-tree/2.34.1#_output_format
+		// With -z, <file> is verbatim (never quoted) and may itself contain
+		// spaces and tabs, so split off everything before the first TAB.
 
-		fields := strings.Split(line, " ")
+		info, name, found := strings.Cut(line, "\t")
+		if !found {
+			return nil, fmt.Errorf("unexpected entry '%s' in tree '%s'", line, treeID.String())
+		}
+
+		fields := strings.Split(info, " ")
+		if len(fields) != 3 {
+			return nil, fmt.Errorf("unexpected entry '%s' in tree '%s'", line, treeID.String())
+		}
 		// fields[0] is <mode> -- discard
 		// fields[1] is <type> -- blob or tree
-		// fields[2] is <object> TAB <file>
-		objectAndName := strings.Split(fields[2], "\t")
+		// fields[2] is <object>
 
-		hash, err := NewHash(objectAndName[0])
+		hash, err := NewHash(fields[2])
 		if err != nil {
-			return nil, fmt.Errorf("invalid Git ID '%s' for path '%s': %w", objectAndName[0], objectAndName[1], err)
+			return nil, fmt.Errorf("invalid Git ID '%s' for path '%s': %w", fields[2], name, err)
 		}
 
 		kind := gitstore.KindBlob
@@ -112,7 +120,7 @@ func (r *Repository) GetEntriesInTree(treeID Hash) ([]TreeEntry, error) {
 			kind = gitstore.KindSubtree
 		}
 
-		entries = append(entries, TreeEntry{Path: objectAndName[1], ID: hash, Kind: kind})
+		entries = append(entries, TreeEntry{Path: name, ID: hash, Kind: kind})
 	}
 
 	return entries, nil
@@ -126,18 +134,13 @@ func (r *Repository) GetAllFilesInTree(treeID Hash) (map[string]Hash, error) {
 	// of being on Ubuntu 22.04. 22.04 is still widely used in WSL2 environments.
 	// So, we're removing --format and parsing the output differently to handle
 	// the extra information for each entry we don't need.
-	stdOut, err := r.executor("ls-tree", "-r", treeID.String()).executeString()
+	entries, err := r.executor("ls-tree", "-r", "-z", treeID.String()).executeNULSeparated()
 	if err != nil {
 		return nil, fmt.Errorf("unable to enumerate all files in tree: %w", err)
 	}
 
-	if stdOut == "" {
-		return nil, nil // alternatively, just check if treeID is empty tree?
-	}
-
-	entries := strings.Split(stdOut, "\n")
 	if len(entries) == 0 {
-		return nil, nil
+		return nil, nil // alternatively, just check if treeID is empty tree?
 	}
 
 	files := map[string]Hash{}
@@ -145,20 +148,28 @@ func (r *Repository) GetAllFilesInTree(treeID Hash) (map[string]Hash, error) {
 		// Without --format, the output is in the following format:
 		// <mode> SP <type> SP <object> TAB <file>
 		// From: https://git-scm.com/docs/git-ls-tree/2.34.1#_output_format
+		// With -z, <file> is verbatim (never quoted) and may itself contain
+		// spaces and tabs, so split off everything before the first TAB.
 
-		entrySplit := strings.Split(entry, " ")
-		// entrySplit[0] is <mode> -- discard
-		// entrySplit[1] is <type> -- discard
-		// entrySplit[2] is <object> TAB <file> -- keep
-		entrySplit = strings.Split(entrySplit[2], "\t")
-
-		// <object> is really the object ID
-		hash, err := NewHash(entrySplit[0])
-		if err != nil {
-			return nil, fmt.Errorf("invalid Git ID '%s' for path '%s': %w", entrySplit[0], entrySplit[1], err)
+		info, name, found := strings.Cut(entry, "\t")
+		if !found {
+			return nil, fmt.Errorf("unexpected entry '%s' in tree '%s'", entry, treeID.String())
 		}
 
-		files[entrySplit[1]] = hash
+		entrySplit := strings.Split(info, " ")
+		if len(entrySplit) != 3 {
+			return nil, fmt.Errorf("unexpected entry '%s' in tree '%s'", entry, treeID.String())
+		}
+		// entrySplit[0] is <mode> -- discard
+		// entrySplit[1] is <type> -- discard
+		// entrySplit[2] is <object>, really the object ID
+
+		hash, err := NewHash(entrySplit[2])
+		if err != nil {
+			return nil, fmt.Errorf("invalid Git ID '%s' for path '%s': %w", entrySplit[2], name, err)
+		}
+
+		files[name] = hash
 	}
 
 	return files, nil
@@ -465,10 +476,12 @@ func (t *TreeBuilder) writeTree(entries []treeNode) (Hash, error) {
 			// TODO: support entryBlob's permissions here
 			input += "100644 blob " + entry.gitID.String() + "\t" + entry.name
 		}
-		input += "\n"
+		// NUL-terminated, so that mktree takes every name verbatim instead
+		// of unquoting names that begin with a double quote
+		input += "\x00"
 	}
 
-	stdOut, err := t.repo.executor("mktree").withStdIn(bytes.NewBufferString(input)).executeString()
+	stdOut, err := t.repo.executor("mktree", "-z").withStdIn(bytes.NewBufferString(input)).executeString()
 	if err != nil {
 		return ZeroHash, fmt.Errorf("unable to write Git tree: %w", err)
 	}
